@@ -546,6 +546,12 @@ theorem private_ranges_matches_documented :
     Gen.privateRanges =
       [b!"192.168.0.0/16", b!"172.16.0.0/12", b!"10.0.0.0/8", b!"127.0.0.1/8", b!"fd00::/8", b!"::1"] := by decide
 
+/-- the `{client_ip}` shorthand of the Caddyfile stands for the var `determineTrustedProxy` fills —
+    looked up in the shorthand table regenerated from httpcaddyfile/shorthands.go -/
+theorem client_ip_shorthand_matches_source :
+    Gen.placeholderShorthands.lookup "{client_ip}" = some "{http.vars.client_ip}" ∧
+    clientIPShorthandOf = phClientIP := by decide
+
 /-! ## model artefacts -/
 
 /-- `strings.TrimSpace`'s fuel (the input length) is never exhausted: nothing is left to trim -/
